@@ -3,6 +3,7 @@ pub mod alloc;
 pub mod engine;
 pub mod gen;
 pub mod io;
+pub mod mux;
 pub mod oracle;
 pub mod props;
 pub mod refmp4;
